@@ -134,6 +134,14 @@ class PropZoo(Expr):
     hidden: int = field(default=0, compare=False)
 
 
+@dataclass(frozen=True)
+class Two(Expr):
+    """two adjacent string properties (target of separator-splice attacks on the digest framing)"""
+
+    a: str = ""
+    b: str = ""
+
+
 # field name -> is_collection, in declaration order  (the harness' own knowledge)
 CHILD_FIELDS: dict[type, list[tuple[str, bool]]] = {
     Expr: [],
@@ -150,9 +158,10 @@ CHILD_FIELDS: dict[type, list[tuple[str, bool]]] = {
     FalsyKid: [("c", False), ("items", True)],
     Names: [("child", False), ("root", False), ("items", True)],
     PropZoo: [],
+    Two: [],
 }
 ALL_CLASSES = list(CHILD_FIELDS)
-LEAF_CLASSES = [Leaf, Leaf2, Falsy, PropZoo]
+LEAF_CLASSES = [Leaf, Leaf2, Falsy, PropZoo, Two]
 
 _BASE_FIELDS = ("id", "content_id", "origin")
 
@@ -251,6 +260,8 @@ class Gen:
                         tf=tuple(frozenset(r.choice("abcdefgh") for _ in range(r.randint(0, 3)))
                                  for _ in range(r.randint(0, 2))),
                         hidden=r.randint(0, 1), origin=o)
+        elif k < 0.97:
+            n = Two(a=gen_str(r), b=gen_str(r), origin=o)
         else:
             n = Expr(origin=o)
         self.pool.append(n)
